@@ -37,7 +37,13 @@ class Backend:
             return npa
         if self.name == 'jax':
             return self.jnp.asarray(npa)
-        return self.torch.from_numpy(np.ascontiguousarray(npa)) if npa.ndim else self.torch.tensor(npa.item(), dtype=self.tdtype(npa.dtype))
+        if not npa.ndim:
+            return self.torch.tensor(npa.item(), dtype=self.tdtype(npa.dtype))
+        if npa.ndim >= 2 and not npa.flags['C_CONTIGUOUS']:
+            # keep the non-contiguous layout: a contiguous tensor of the reversed shape, permuted back
+            rev = tuple(reversed(range(npa.ndim)))
+            return self.torch.from_numpy(np.ascontiguousarray(npa.transpose())).permute(*rev)
+        return self.torch.from_numpy(np.ascontiguousarray(npa))
 
     def tdtype(self, npdtype):
         return getattr(self.torch, np.dtype(npdtype).name)
@@ -80,7 +86,14 @@ def np_leaf(desc):
         a = (base + 1j * ((base + 1) % 3)).astype(dt)
     else:
         a = base.astype(dt)
-    return a.reshape(shape)
+    a = a.reshape(shape)
+    # memory layout is part of "every array": rank >= 2 leaves are C-contiguous, Fortran-ordered or a transposed
+    # view (same logical values either way; the oracle only ever looks at the logical row-major order)
+    if a.ndim >= 2 and seed % 3 == 1:
+        a = np.asfortranarray(a)
+    elif a.ndim >= 2 and seed % 3 == 2:
+        a = np.ascontiguousarray(a.transpose()).transpose()
+    return a
 
 
 ARR = st.tuples(st.sampled_from(DTYPES), st.lists(st.sampled_from([0, 1, 2, 3]), max_size=3), st.integers(0, 4)).map(
